@@ -116,6 +116,14 @@ class ModelFS:
 
     # ---- seams
     def open(self, path, mode='r', buffering=-1, encoding=None, errors=None, newline=None):
+        if isinstance(path, SymPath) and 'r' in mode:
+            n_ = sx.simp(path.name.cell.num)
+            if not sx.isz(n_) and sx.simp(path.name.cell.cls) == sqlmodel.TEXT:
+                # a ground name: the very file (its bytes are needed e.g. to unpickle a file-backed value)
+                cpath = posixpath.join(path.dir, path.name.db.intern.lookup(sqlmodel.TEXT, n_))
+                f_ = self.files.get(cpath)
+                if f_ is not None and (f_.exists is True or f_.exists is False) and not isinstance(f_.content, SymContent):
+                    path = cpath
         if isinstance(path, SymPath):
             self.w.event('fs', 'open:%s:<sym>' % mode)
             if 'r' not in mode:
@@ -149,6 +157,10 @@ class ModelFS:
 
     def remove(self, path):
         if isinstance(path, SymPath):
+            if not bool(B(sx.zB(path.name.notnull()))):
+                # the code under test guards the removal with `filename is not None`; a symbolic name is never None, so the guard
+                # is decided here (fork) and a NULL name counts no event -- event numbers stay those of the real run
+                return
             self.w.event('fs', 'remove:<sym>')
             self._sym_remove(path)
             return
@@ -172,7 +184,20 @@ class ModelFS:
     def removedirs(self, d):
         if isinstance(d, SymDir):
             # directories of symbolically named files are not tracked (an empty directory is harmless debris)
+            if isinstance(d.path, SymPath) and not bool(B(sx.zB(d.path.name.notnull()))):
+                return
             self.w.event('fs', 'removedirs:<sym>')
+            if isinstance(d.path, SymPath):
+                n = sx.simp(d.path.name.cell.num)
+                if not sx.isz(n) and sx.simp(d.path.name.cell.cls) == sqlmodel.TEXT:
+                    # a ground name (differential validation, concrete replays): prune emptied directories like the real call
+                    head = posixpath.dirname(posixpath.join(d.path.dir, d.path.name.db.intern.lookup(sqlmodel.TEXT, n)))
+                    while head and head != '/' and head != d.path.dir:
+                        try:
+                            self._rmdir(head)
+                        except OSError:
+                            break
+                        head = posixpath.dirname(head)
             return
         self.w.event('fs', 'removedirs:%s' % d)
         self._rmdir(d)
@@ -185,17 +210,21 @@ class ModelFS:
             head = posixpath.dirname(head)
 
     def walk(self, top, topdown=True, onerror=None, followlinks=False):
+        # one event per os.walk call (as counted on the real stack), not one per directory visited
         self.w.event('fs', 'scandir:%s' % top)
+        return self._walk(top, topdown)
+
+    def _walk(self, top, topdown):
         if top not in self.dirs:
             return
         ds, fs = self.listdir(top)
         if topdown:
             yield top, ds, fs
             for d in ds:
-                yield from self.walk(posixpath.join(top, d), topdown)
+                yield from self._walk(posixpath.join(top, d), topdown)
         else:
             for d in ds:
-                yield from self.walk(posixpath.join(top, d), topdown)
+                yield from self._walk(posixpath.join(top, d), topdown)
             yield top, ds, fs
 
     def os_listdir(self, d):
@@ -330,8 +359,25 @@ class Reader:
             return s
         return data
 
+    def _ev(self):
+        if not getattr(self, '_read_seen', False):  # one event per file object, however the reader chunks it
+            self._read_seen = True
+            self.fs.w.event('fs', 'read:%s' % self.path)
+
+    def readline(self, n=-1):
+        self._ev()
+        data = self._all()
+        if isinstance(data, SymContent):
+            raise sqlmodel.Unsupported('readline on symbolic file content')
+        nl = '\n' if isinstance(data, str) else b'\n'
+        j = data.find(nl, self.pos)
+        end = len(data) if j < 0 else j + 1
+        r = data[self.pos:end]
+        self.pos = end
+        return r
+
     def read(self, n=-1):
-        self.fs.w.event('fs', 'read:%s' % self.path)
+        self._ev()
         if isinstance(self.f.content, SymContent):
             return self.f.content
         data = self._all()
@@ -380,6 +426,128 @@ class Local:
             raise AttributeError(k)
 
 
+class Interleaver:
+    """two calls that are both suspended part-way (not well-nested): client A runs up to its event `a_at`, client B then runs
+    up to its event `b_at`, A resumes and runs to its end, B resumes and finishes.  A client that meets the write lock held
+    by the suspended other one lets the other one finish first (it blocks, as it would in SQLite).  Each client is an OS
+    thread; exactly one runs at a time (strict hand-over), so execution is deterministic and can be re-executed."""
+
+    def __init__(self, w, a_at, b_at, ids):
+        import threading as _th
+        self.w, self.a_at, self.b_at, self.ids = w, a_at, b_at, ids
+        self.n = {'A': 0, 'B': 0}
+        self.cur = 'A'
+        self.a_switched = self.b_yielded = False
+        self.a_done = self.b_done = self.b_started = False
+        self.abort = False
+        self.exc_b = None
+        self.go = {'A': _th.Semaphore(0), 'B': _th.Semaphore(0)}
+        self.thread = None
+        self.fb = None
+        self.switches = []
+        self.was_blocked = {'A': False, 'B': False}
+
+    def _become(self, who):
+        self.cur = who
+        self.w.pid, self.w.tid = self.ids[who]
+
+    def _to_b(self):
+        """called by A: let B run until it yields or ends"""
+        import threading as _th
+        if self.b_done:
+            return
+        self._become('B')
+        if not self.b_started:
+            self.b_started = True
+            self.thread = _th.Thread(target=self._run_b, daemon=True)
+            self.thread.start()
+        else:
+            self.go['B'].release()
+        self.go['A'].acquire()
+        self._become('A')
+        if self.exc_b is not None and isinstance(self.exc_b, (PathEnd, zpath.Inconclusive, Crash)):
+            e, self.exc_b = self.exc_b, None
+            raise e
+
+    def _to_a(self):
+        """called by B: let A run to its end"""
+        self._become('A')
+        self.go['A'].release()
+        self.go['B'].acquire()
+        if self.abort:
+            raise PathEnd('interleaving aborted')
+        self._become('B')
+
+    def _run_b(self):
+        try:
+            self.fb()
+        except BaseException as e:  # re-raised in the main thread
+            self.exc_b = e
+        finally:
+            self.b_done = True
+            self._become('A')
+            self.go['A'].release()
+
+    def on_event(self, kind, detail):
+        w = self.w
+        who = self.cur
+        i = self.n[who]
+        self.n[who] += 1
+        w.log.append((len(w.log), kind, (detail if kind != 'sql' else detail[:60]) + ' @' + who))
+        if who == 'A' and not self.a_switched and (self.a_at == i):
+            self.a_switched = True
+            self.switches.append(('A', i, kind, detail[:40]))
+            zpath.flag('interleaved')
+            self._to_b()
+        elif who == 'B' and not self.b_yielded and not self.a_done and (self.b_at == i):
+            self.b_yielded = True
+            self.switches.append(('B', i, kind, detail[:40]))
+            zpath.flag('both_suspended')
+            self._to_a()
+
+    def blocked(self):
+        """the running client met the write lock held by the suspended one: the other one goes first"""
+        if self.cur == 'B' and not self.a_done:
+            self.was_blocked['B'] = True
+            self.b_yielded = True
+            zpath.flag('blocked_on_suspended')
+            self._to_a()
+            return True
+        if self.cur == 'A' and self.b_started and not self.b_done:
+            self.was_blocked['A'] = True
+            zpath.flag('blocked_on_suspended')
+            self.b_yielded = True
+            self._to_b()
+            return True
+        return False
+
+    def run(self, fa, fb):
+        self.fb = fb
+        w = self.w
+        w.il = self
+        self._become('A')
+        try:
+            fa()
+            self.a_done = True
+            if self.b_started and not self.b_done:
+                self._to_b()
+        finally:
+            self.a_done = True
+            if self.b_started and not self.b_done:
+                # A ended abnormally (path end): wake B so that its thread terminates
+                self.abort = True
+                self.go['B'].release()
+                self.go['A'].acquire()
+            if self.thread is not None:
+                self.thread.join(10)
+            w.il = None
+            self._become('A')
+        if self.exc_b is not None:
+            e, self.exc_b = self.exc_b, None
+            raise e
+        return self.b_started
+
+
 class BaseWorld:
     """event counting and directives shared by the model backend and the real backend"""
     is_real = False
@@ -410,12 +578,15 @@ class BaseWorld:
         self.begin_hook = None
         self.event_hooks = []
         self.busy_hook = None
+        self.il = None
         zpath.TOKENS.clear()
         self.install()
 
     def spin(self):
         """a BEGIN met the write lock held by a suspended client: a retrying caller would wait for ever in a
         well-nested schedule -- cut after 2 spins ("still waiting" is a legal prefix)"""
+        if self.il is not None and self.il.blocked():
+            return
         self.spins = getattr(self, 'spins', 0) + 1
         if self.spins > 2 and getattr(self, 'soft_block', False):
             self.spins = 0
@@ -425,6 +596,12 @@ class BaseWorld:
             if ex is not None:
                 ex.aborting = True
             raise Spin('waiting for a lock held by a suspended client')
+
+    def interleave(self, fa, fb, a_at, b_at, id_a=(100, 1), id_b=(200, 1)):
+        """run fa and fb as two clients that are both suspended part-way (see Interleaver); returns True if B ran inside A"""
+        il = Interleaver(self, a_at, b_at, {'A': id_a, 'B': id_b})
+        il.run(fa, fb)
+        return il
 
     def refused(self):
         """a busy hook refused a BEGIN: a caller that retries against a lock that is never released would loop for ever -- cut"""
@@ -449,6 +626,10 @@ class BaseWorld:
         ex = Ctx.cur
         if ex is not None and ex.aborting:
             raise PathEnd('aborting')
+        if self.il is not None:
+            if self.counting:
+                self.il.on_event(kind, detail)
+            return
         if self.interfering and self.counting and self.interfere2_at is not None and not self.interfering2:
             # depth-2 nesting: client C inside client B's call (own event counter)
             j = self.nevents2
@@ -555,6 +736,8 @@ class World(BaseWorld):
         return R(t)
 
     def sleep(self, d):
+        if self.il is not None and self.il.blocked():
+            return  # polling for something the suspended client holds: that client runs on first
         self.sleeps += 1
         if self.sleeps > self.max_sleeps and getattr(self, 'soft_block', False):
             self.sleeps = 0
@@ -695,6 +878,10 @@ class World(BaseWorld):
     def set_busy_hook(self, cache, fn):
         cache._con.db.busy_hook = fn
 
+    def set_busy_all_hook(self, cache, fn):
+        """fn(con, sql) -> True: the statement fails with 'database is locked' (a lock that blocks every statement, reads included)"""
+        cache._con.db.busy_all_hook = fn
+
     # ---- out-of-band damage (C17)
     def damage_file(self, cache, rel, deleted, new_size):
         f = self.fs.files[posixpath.join(cache._directory, rel)]
@@ -824,4 +1011,9 @@ def clone_handle(world, obj0, preconnect=True):
         obj._local.pid = world.pid
         obj._local.con = Connection(world.db_for(posixpath.join(obj._directory, 'cache.db')),
                                     name='c%d.%d' % (world.pid, world.tid), timeout=obj._timeout)
+        # the per-connection settings `_con` applies on first use
+        for k_ in list(obj._local.con.pragmas):
+            v_ = getattr(obj0, 'sqlite_' + k_, None)
+            if v_ is not None:
+                obj._local.con.pragmas[k_] = v_
     return obj
